@@ -5,6 +5,7 @@ import (
 	"go/token"
 	"go/types"
 	"math/big"
+	"strings"
 
 	"golang.org/x/tools/go/ssa"
 )
@@ -716,6 +717,49 @@ func (c *Ctx) mapMems(st *State, mt *types.Map) (pres Term, vals []Term, presNam
 	return
 }
 
+// mapValueAllocated: a reference read out of a map denotes an object allocated when the
+// memory version it is read from was current (ground instances of heap well-formedness along
+// the version chain; map memories carry no quantified axioms).
+func (c *Ctx) mapValueAllocated(va, m, k Term) {
+	if c.inQuant > 0 {
+		return
+	}
+	_, inner := arrSorts(va.Sort)
+	if _, vs := arrSorts(inner); vs != SRef {
+		return
+	}
+	lim := birthBase + c.nextObj + 1
+	var walk func(v Term, depth int)
+	walk = func(v Term, depth int) {
+		if depth > 64 {
+			return
+		}
+		bound := lim
+		var next []Term
+		if strings.HasPrefix(v.S, "M0_") {
+			bound = birthBase
+		} else if fr, ok := c.frameRecs[v.S]; ok {
+			bound = fr.bound + 256
+			next = []Term{fr.old}
+		} else if parts, ok := c.mergeOf[v.S]; ok {
+			next = parts
+		} else if rec, ok := c.storeOf[v.S]; ok {
+			next = []Term{rec.base}
+		}
+		x := Select(Select(v, m), k)
+		key := fmt.Sprintf("mva|%d|%s", bound, x.S)
+		if !c.assumed[key] {
+			c.assumed[key] = true
+			c.assumes = append(c.assumes, Assume{declPos: len(c.decls), optAx: true, why: "references stored in maps denote allocated objects (instance)",
+				t: And(ILe(IntLitI(0), RefRoot(x)), ILt(RefRoot(x), IntLitI(int64(bound))))})
+		}
+		for _, n := range next {
+			walk(n, depth+1)
+		}
+	}
+	walk(va, 0)
+}
+
 func (c *Ctx) mapMemGet(st *State, name, inner string) Term {
 	if t, ok := st.mem[name]; ok {
 		return t
@@ -802,7 +846,9 @@ func (f *Frame) lookup(st *State, v *ssa.Lookup) *Val {
 	has := Select(Select(pres, m.T), k)
 	var ts []Term
 	for _, va := range vals {
-		ts = append(ts, Select(Select(va, m.T), k))
+		x := Select(Select(va, m.T), k)
+		c.mapValueAllocated(va, m.T, k)
+		ts = append(ts, x)
 	}
 	val, _ := c.unflatten(mt.Elem(), ts)
 	val = c.iteVal(has, val, c.zero(mt.Elem()))
